@@ -26,8 +26,13 @@ def sdiv0 (a b : I32) : I32 := if b = 0 then 0 else a.sdiv b
 /-- Remainder with the sign of the dividend; 0 when the divisor is 0. -/
 def srem0 (a b : I32) : I32 := if b = 0 then 0 else a.srem b
 
-/-- Wrapping power by repeated multiplication; 0 for negative exponents (A2). -/
-def ipow (a b : I32) : I32 := if b.toInt < 0 then 0 else a ^ b.toNat
+/-- square-and-multiply; `fuel` bounds the number of exponent bits (32 suffice for a 32-bit exponent) -/
+def powLoop (base acc : I32) (n : Nat) : Nat → I32
+  | 0 => acc
+  | f + 1 => if n = 0 then acc else powLoop (base * base) (if n % 2 = 1 then acc * base else acc) (n / 2) f
+
+/-- Wrapping power (`powLoop a 1 n 32 = a ^ n`, theorem `Facto.powLoop_eq`); 0 for negative exponents (A2). -/
+def ipow (a b : I32) : I32 := if b.toInt < 0 then 0 else powLoop a 1 b.toNat 32
 
 def shl32 (a b : I32) : I32 := a <<< (b.toNat % 32)
 def sshr32 (a b : I32) : I32 := a.sshiftRight (b.toNat % 32)
